@@ -129,6 +129,152 @@ def search_rules(dump):
     return found
 
 
+# --------------------------------------------------------------------------------------
+# implementation level: lengths / areas / volumes / centroids / Integrate_e of polynomials on
+# straight-sided (affine, and bilinear quadrangle) elements vs exact rational integrals
+# --------------------------------------------------------------------------------------
+def _padd(p, q):
+    r = dict(p)
+    for k, v in q.items():
+        r[k] = r.get(k, 0) + v
+    return r
+
+
+def _pmul(p, q):
+    r = {}
+    for k1, v1 in p.items():
+        for k2, v2 in q.items():
+            k = tuple(a + b for a, b in zip(k1, k2))
+            r[k] = r.get(k, 0) + v1 * v2
+    return r
+
+
+def _ppow(p, n, dim):
+    r = {tuple([0] * dim): F(1)}
+    for _ in range(n):
+        r = _pmul(r, p)
+    return r
+
+
+REPLAY_INT = r"""
+import json, os, subprocess, sys
+req = json.loads(%(req)r)
+exp = json.loads(%(exp)r)
+p = subprocess.run([sys.executable, %(script)r], input=json.dumps(req), capture_output=True, text=True, env=os.environ)
+if p.returncode != 0:
+    print(p.stderr[-800:]); sys.exit(1)
+r = json.loads(p.stdout)[0]
+print("implementation:", {k: r.get(k) for k in ("measure", "center", "int_mass", "int_rigi", "raises")})
+print("exact         :", exp)
+bad = "raises" in r
+if not bad:
+    tol = lambda e: 1e-10 * max(1.0, abs(e), exp["scale"])
+    bad |= abs(r["measure"] - exp["measure"]) > tol(exp["measure"])
+    bad |= any(abs(a - b) > tol(b) for a, b in zip(r["center"], exp["center"]))
+    for mt in ("mass", "rigi"):
+        bad |= any(e is not None and abs(a - e) > tol(e) for a, e in zip(r["int_" + mt], exp["int_" + mt]))
+sys.exit(1 if bad else 0)
+"""
+
+
+def impl_integration(ctx, dump, E):
+    rng = ctx.rng
+    ndoc = {}
+    for f in dump["factory"]:
+        rule = [r for r in dump["rules"] if (r["shape"], r["npg"]) == (f["shape"], f["npg"])]
+        if rule:
+            ndoc[(f["elem"], f["matrix"])] = min(rule[0]["doc"])
+    cases, exact = [], []
+    reps = 1 if ctx.tier == "quick" else 4
+    for name, r in E.items():
+        dim = r["dim"]
+        for _ in range(reps):
+            while True:
+                A = [[F(rng.randint(-6, 6), 4) for _ in range(dim)] for _ in range(dim)]
+                det = A[0][0] if dim == 1 else (A[0][0] * A[1][1] - A[0][1] * A[1][0] if dim == 2 else
+                        sum(A[0][i] * (A[1][(i + 1) % 3] * A[2][(i + 2) % 3] - A[1][(i + 2) % 3] * A[2][(i + 1) % 3]) for i in range(3)))
+                if abs(det) >= F(1, 8):
+                    break
+            b = [F(rng.randint(-8, 8), 4) for _ in range(dim)]
+            sh = {"SEG": "Seg", "TRI": "Tri", "QUAD": "Quad", "TETRA": "Tet", "HEXA": "Hex", "PRISM": "Prism"}[name.rstrip("0123456789")]
+            dmax = max(ndoc.get((name, "mass"), 0), ndoc.get((name, "rigi"), 0))
+            exps_ = [e for e in exps(dim, dmax)]
+            rng.shuffle(exps_)
+            exps_ = exps_[:8] + [tuple([0] * dim)]
+            # x_k(xi) as polynomials in xi
+            X = []
+            for k in range(dim):
+                pk = {tuple([0] * dim): b[k]}
+                for d in range(dim):
+                    e = [0] * dim
+                    e[d] = 1
+                    pk = _padd(pk, {tuple(e): A[d][k]})
+                X.append(pk)
+
+            def integral(ex):
+                poly = {tuple([0] * dim): F(1)}
+                for k in range(dim):
+                    poly = _pmul(poly, _ppow(X[k], ex[k], dim))
+                return abs(det) * sum(c * iref(sh, m) for m, c in poly.items())
+            meas = abs(det) * MEAS[sh]
+            cen = [integral(tuple(int(j == k) for j in range(dim))) / meas for k in range(dim)]
+            ex3 = [list(e) + [0] * (3 - dim) for e in exps_]
+            ints = {}
+            for mt in ("mass", "rigi"):
+                ints[mt] = [float(integral(e)) if sum(e) <= ndoc.get((name, mt), -1) else None for e in exps_]
+            cases.append({"elem": name, "A": [[float(x) for x in row] for row in A], "b": [float(x) for x in b], "exps": ex3})
+            scale = float(max(abs(x) for row in A for x in row) + max([abs(x) for x in b] + [1])) ** max(1, dmax) * float(meas)
+            exact.append({"measure": float(meas), "center": [float(x) for x in cen] + [0.0] * (3 - dim), "int_mass": ints["mass"], "int_rigi": ints["rigi"], "scale": scale})
+    # straight-sided general quadrangles: area by the shoelace formula, centroid of the polygon
+    for name in ("QUAD4", "QUAD8", "QUAD9"):
+        r = E[name]
+        for _ in range(reps):
+            V = [(F(0) + F(rng.randint(-2, 2), 8), F(0) + F(rng.randint(-2, 2), 8)), (F(2) + F(rng.randint(-2, 2), 8), F(rng.randint(-2, 2), 8)),
+                 (F(2) + F(rng.randint(-2, 6), 8), F(1) + F(rng.randint(-2, 6), 8)), (F(rng.randint(-2, 2), 8), F(1) + F(rng.randint(-2, 2), 8))]
+            # bilinear image of every reference node (mid nodes at the bilinear images)
+            nodes = []
+            for (xr, xs) in r["nodes"]:
+                w = [(1 - xr) * (1 - xs) / 4, (1 + xr) * (1 - xs) / 4, (1 + xr) * (1 + xs) / 4, (1 - xr) * (1 + xs) / 4]
+                nodes.append([sum(wi * v[0] for wi, v in zip(w, V)), sum(wi * v[1] for wi, v in zip(w, V)), F(0)])
+            area = sum(V[i][0] * V[(i + 1) % 4][1] - V[(i + 1) % 4][0] * V[i][1] for i in range(4)) / 2
+            cx = sum((V[i][0] + V[(i + 1) % 4][0]) * (V[i][0] * V[(i + 1) % 4][1] - V[(i + 1) % 4][0] * V[i][1]) for i in range(4)) / (6 * area)
+            cy = sum((V[i][1] + V[(i + 1) % 4][1]) * (V[i][0] * V[(i + 1) % 4][1] - V[(i + 1) % 4][0] * V[i][1]) for i in range(4)) / (6 * area)
+            cases.append({"elem": name, "nodes": [[float(x) for x in nd] for nd in nodes], "exps": [[0, 0, 0]]})
+            exact.append({"measure": float(area), "center": [float(cx), float(cy), 0.0], "int_mass": [float(area)], "int_rigi": [float(area)], "scale": float(area)})
+    rc, out, err = ctx.impl_python(os.path.join(common.VERIF, "corr", "impl_integrate.py"), input=json.dumps({"cases": cases}), timeout=900)
+    if rc != 0:
+        ctx.obligation("corr:impl-integration", False, err[-1200:])
+        ctx.violation("corr:integration-impl-crash", "implementation-side integration run failed: " + ((err.strip().splitlines() or ["?"])[-1][:200]), {"stderr": err[-3000:]}, found_input=False)
+        return
+    res = json.loads(out)
+    nbad = 0
+    ncmp = 0
+    for c, e, r in zip(cases, exact, res):
+        probs = []
+        if "raises" in r:
+            probs.append("raises " + r["raises"])
+        else:
+            tol = lambda x: 1e-10 * max(1.0, abs(x), e["scale"])
+            if abs(r["measure"] - e["measure"]) > tol(e["measure"]) or abs(r["measure_total"] - e["measure"]) > tol(e["measure"]):
+                probs.append("measure %r exact %r" % (r["measure"], e["measure"]))
+            if any(abs(a - b) > tol(b) for a, b in zip(r["center"], e["center"])):
+                probs.append("centre %r exact %r" % (r["center"], e["center"]))
+            for mt in ("mass", "rigi"):
+                for a, x, ex in zip(r["int_" + mt], e["int_" + mt], c["exps"]):
+                    ncmp += 1
+                    if x is not None and abs(a - x) > tol(x):
+                        probs.append("Integrate_e(x^%d y^%d z^%d, %s, %d points) = %r exact %r" % (ex[0], ex[1], ex[2], mt, r["npg_" + mt], a, x))
+        kind = "general" if c.get("nodes") else "affine"
+        ctx.note_case("integrate:%s:%s" % (c["elem"], kind))
+        if probs:
+            nbad += 1
+            ctx.violation("integration:%s:%s" % (c["elem"], kind), "%s element %s: %s" % (kind, c["elem"], "; ".join(probs[:3])),
+                          {"case": c, "exact": e, "replay_py": REPLAY_INT % dict(req=json.dumps({"cases": [c]}), exp=json.dumps(e), script=os.path.join(common.VERIF, "corr", "impl_integrate.py"))}, True)
+    ctx.cov["impl_integration_cases"] = len(cases)
+    ctx.cov["impl_integrals_compared"] = ncmp
+    ctx.obligation("corr:length/area/volume/centre/Integrate_e exact on straight-sided elements", nbad == 0, "%d of %d cases differ" % (nbad, len(cases)))
+
+
 def run(ctx):
     ctx.assumptions += [
         "closed-form reference integrals of monomials (a!b!/(a+b+2)! etc., EFLib.QuadDefs.iref) are the specification of 'exact'",
@@ -206,6 +352,7 @@ def run(ctx):
         if not found:
             ctx.violation("proof-broken:C07_factory.v", "C07_factory.v no longer checks; diagnosis found no failing element",
                           {"obligation": "C07_factory.v", "log": r2.log[-3000:], "diag": outd[-2000:]}, found_input=False)
+    impl_integration(ctx, dump, E)
     # independent exact sweep (python Fractions) of what Coq decided, as cross-check of the tie
     sw = search_rules(dump)
     ctx.obligation("python exact sweep agrees with the Coq decision on the rules", bool(sw) == (not r1.ok), "sweep found %d" % len(sw))
